@@ -498,6 +498,20 @@ type RegionRef struct {
 	Code string
 }
 
+// has many through a reference column that is not the owner's primary key
+// (Rack.Boxes: boxes.rackcode -> racks.code)
+type Rack struct {
+	ID    uint
+	Code  string
+	Boxes []Box `gorm:"foreignKey:RackCode;references:Code"`
+}
+
+type Box struct {
+	ID       uint
+	RackCode *string
+	Name     string
+}
+
 type Shop struct {
 	ID         uint
 	Name       string
